@@ -31,6 +31,7 @@ type scriptGetter struct {
 	headGate chan struct{} // when set, Head blocks until it is closed
 	nfAll    bool          // GetByHeight answers header.ErrNotFound for every height (peers have nothing / pruned everything)
 	hDelay   time.Duration // when > 0: every GetByHeight takes that long (a slow tail fetch)
+	hGate    chan struct{} // when non-nil: every GetByHeight waits until it is closed (or its context ends)
 	budget   int           // when > 0: GetByHeight fails with errBudget after that many requests (non-termination guard)
 	nH       int
 }
@@ -88,6 +89,13 @@ func (g *scriptGetter) GetByHeight(ctx context.Context, h uint64) (*vhdr.Header,
 	}
 	if g.hDelay > 0 {
 		time.Sleep(g.hDelay)
+	}
+	if g.hGate != nil {
+		select {
+		case <-g.hGate:
+		case <-ctx.Done():
+			return nil, ctx.Err()
+		}
 	}
 	g.mu.Lock()
 	g.nH++
